@@ -1,9 +1,152 @@
 (* C13 - JSON Schema translation preserves which instances are valid.
-   Only statements, closed by [exact], and Print Assumptions. *)
-From Verif Require Import Schema.Json Schema.Sem Schema.Encode Schema.Proofs.
+   Only statements, closed by [exact], and Print Assumptions.
+
+   [valid]  : Schema/Sem.v    - JSON Schema 2020-12 validity, from the specification.
+   [encode] : Schema/Encode.v - what the CUE produced by encoding/jsonschema accepts
+              (schemaState / finalize / constraint* as semantic combinators).
+   [in_fragment re s] : the decoder raises none of the deviation classes (DEV constants) on s;
+              it is computed by the model and printed for every case of the correspondence.
+   The regexp engine [re] is universally quantified. *)
+From Verif Require Import Schema.Json Schema.Sem Schema.Encode Schema.Proofs Schema.Steps2 Schema.Main Schema.Refute.
 From Coq Require Import List NArith ZArith Bool.
 Import ListNotations.
 
+(* the compiler-correctness statement of the encoding strategy, unbounded nesting *)
+Theorem C13_encode_correct : forall re s, in_fragment re s -> forall j, encode re s j = valid re s j.
+Proof. exact encode_correct. Qed.
+Print Assumptions C13_encode_correct.
+
+(* the general form: schemaState(s, types) is exact on every instance whose kind is in `types`,
+   its allowedTypes mask over-approximates the kinds of valid instances, stays inside `types`,
+   and knownTypes covers what the generated expression accepts (mask threading is sound) *)
+Theorem C13_schemaState_correct : forall re s M, r_dev (enc re s M) = [] -> Good re M s (enc re s M).
+Proof. exact enc_good. Qed.
+Print Assumptions C13_schemaState_correct.
+
+Theorem C13_allowed_types_sound : forall re s, in_fragment re s -> forall j,
+  valid re s j = true -> r_A (enc re s mall) (kind_of j) = true.
+Proof. exact allowed_types_sound. Qed.
+Print Assumptions C13_allowed_types_sound.
+
+(* "constraints are not possible to satisfy" is only reported for schemas without valid instances *)
+Theorem C13_unsatisfiable_root_sound : forall re s, in_fragment re s ->
+  mempty (r_A (enc re s mall)) = true -> forall j, valid re s j = false.
+Proof. exact unsatisfiable_root_sound. Qed.
+Print Assumptions C13_unsatisfiable_root_sound.
+
+(* boolean schemas *)
 Theorem C13_bool_schema_correct : forall re b j, encode re (SBool b) j = valid re (SBool b) j.
 Proof. exact bool_schema_correct. Qed.
 Print Assumptions C13_bool_schema_correct.
+
+(* ---- the risky interactions, as corollaries inside the fragment ---- *)
+Theorem C13_not_with_type_list : forall re tys s',
+  in_fragment re (SObj (a_with_type tys) (p_not s')) ->
+  forall j, encode re (SObj (a_with_type tys) (p_not s')) j = existsb (ty_matches j) tys && negb (valid re s' j).
+Proof. exact not_with_type_list. Qed.
+Print Assumptions C13_not_with_type_list.
+
+Theorem C13_oneOf_overlapping_members : forall re l,
+  in_fragment re (SObj A0 (p_oneOf l)) ->
+  forall j, encode re (SObj A0 (p_oneOf l)) j = Nat.eqb (count (fun s' => valid re s' j) l) 1.
+Proof. exact oneOf_overlapping_members. Qed.
+Print Assumptions C13_oneOf_overlapping_members.
+
+Theorem C13_if_then_else_correct : forall re i t e,
+  in_fragment re (SObj A0 (p_ite i (Some t) (Some e))) ->
+  forall j, encode re (SObj A0 (p_ite i (Some t) (Some e))) j = if valid re i j then valid re t j else valid re e j.
+Proof. exact if_then_else_correct. Qed.
+Print Assumptions C13_if_then_else_correct.
+
+Theorem C13_additional_vs_pattern_properties : forall re lp lpp s',
+  in_fragment re (SObj A0 (p_obj (Some lp) (Some lpp) (Some s'))) ->
+  forall m, encode re (SObj A0 (p_obj (Some lp) (Some lpp) (Some s'))) (JObj m) =
+    forallb (fun kv => forallb (fun ks => negb (str_eqb (fst kv) (fst ks)) || valid re (snd ks) (snd kv)) lp) m &&
+    forallb (fun kv => forallb (fun ps => negb (re (fst ps) (fst kv)) || valid re (snd ps) (snd kv)) lpp) m &&
+    forallb (fun kv => negb (negb (has_key (fst kv) lp) && negb (existsb (fun ps => re (fst ps) (fst kv)) lpp))
+                       || valid re s' (snd kv)) m.
+Proof. exact additional_vs_pattern_properties. Qed.
+Print Assumptions C13_additional_vs_pattern_properties.
+
+Theorem C13_allOf_correct_when : forall re l,
+  in_fragment re (SObj A0 (p_allOf l)) ->
+  forall j, encode re (SObj A0 (p_allOf l)) j = forallb (fun s' => valid re s' j) l.
+Proof. exact allOf_correct_when. Qed.
+Print Assumptions C13_allOf_correct_when.
+
+(* ---- the pinned tree deviates outside the fragment: one witness per class ---- *)
+Theorem C13_encode_correct_needs_fragment : exists re s j, encode re s j <> valid re s j.
+Proof. exact encode_correct_needs_fragment. Qed.
+Print Assumptions C13_encode_correct_needs_fragment.
+
+Theorem C13_allOf_unconstrained_member_refuted :
+  valid re_a w_allOf (JStr sab) = true /\ encode re_a w_allOf (JStr sab) = false /\
+  r_dev (enc re_a w_allOf mall) = [DEV_allOf_count].
+Proof. exact allOf_unconstrained_member_refuted. Qed.
+Print Assumptions C13_allOf_unconstrained_member_refuted.
+
+Theorem C13_allOf_false_member_refuted :
+  valid re_a w_allOf_false (JNum 2) = false /\ encode re_a w_allOf_false (JNum 2) = true /\
+  r_dev (enc re_a w_allOf_false mall) = [DEV_allOf_false].
+Proof. exact allOf_false_member_refuted. Qed.
+Print Assumptions C13_allOf_false_member_refuted.
+
+Theorem C13_propertyNames_refuted :
+  valid re_a w_pnames (JObj [(sb, JNum 2)]) = false /\ encode re_a w_pnames (JObj [(sb, JNum 2)]) = true /\
+  r_dev (enc re_a w_pnames mall) = [DEV_propertyNames].
+Proof. exact propertyNames_refuted. Qed.
+Print Assumptions C13_propertyNames_refuted.
+
+Theorem C13_required_closed_refuted :
+  valid re_a w_req (JObj [(sb, JNum 2)]) = false /\ encode re_a w_req (JObj [(sb, JNum 2)]) = true /\
+  r_dev (enc re_a w_req mall) = [DEV_required_closed].
+Proof. exact required_closed_refuted. Qed.
+Print Assumptions C13_required_closed_refuted.
+
+Theorem C13_prefixItems_refuted :
+  valid re_a w_prefix (JArr []) = true /\ encode re_a w_prefix (JArr []) = false /\
+  r_dev (enc re_a w_prefix mall) = [DEV_prefixItems].
+Proof. exact prefixItems_refuted. Qed.
+Print Assumptions C13_prefixItems_refuted.
+
+Theorem C13_empty_name_refuted :
+  valid re_a w_empty (JObj [([], JNum 2)]) = false /\ encode re_a w_empty (JObj [([], JNum 2)]) = true /\
+  r_dev (enc re_a w_empty mall) = [DEV_empty_name].
+Proof. exact empty_name_refuted. Qed.
+Print Assumptions C13_empty_name_refuted.
+
+Theorem C13_error_argument_refuted :
+  valid re_a w_ite (JObj [(sa, JNum 2)]) = true /\ encode re_a w_ite (JObj [(sa, JNum 2)]) = false /\
+  r_dev (enc re_a w_ite mall) = [DEV_error_argument].
+Proof. exact error_argument_refuted. Qed.
+Print Assumptions C13_error_argument_refuted.
+
+Theorem C13_oneOf_false_member_refuted :
+  valid re_a w_oneOf (JNum 2) = false /\ encode re_a w_oneOf (JNum 2) = true /\
+  r_dev (enc re_a w_oneOf mall) = [DEV_oneOf_false].
+Proof. exact oneOf_false_member_refuted. Qed.
+Print Assumptions C13_oneOf_false_member_refuted.
+
+Theorem C13_integer_and_number_refuted :
+  valid re_a w_intnum (JNum 3) = true /\ encode re_a w_intnum (JNum 3) = false /\
+  r_dev (enc re_a w_intnum mall) = [DEV_integer_and_number].
+Proof. exact integer_and_number_refuted. Qed.
+Print Assumptions C13_integer_and_number_refuted.
+
+(* ---- non-vacuity ---- *)
+Example C13_fragment_examples :
+  in_fragment re_a ex_not_type /\ in_fragment re_a ex_oneOf /\ in_fragment re_a ex_ite /\
+  in_fragment re_a ex_obj /\ in_fragment re_a ex_allOf /\ in_fragment re_a ex_nested.
+Proof. exact fragment_examples. Qed.
+Print Assumptions C13_fragment_examples.
+
+Example C13_verdict_examples :
+  map (encode re_a ex_not_type) [JStr sa; JNum 2; JNum 3; JNull] = [false; true; true; false] /\
+  map (encode re_a ex_oneOf) [JNum 2; JNum 6; JNum 5; JStr sa] = [true; false; true; true] /\
+  map (encode re_a ex_ite) [JStr sa; JStr sab; JNum 2] = [false; true; false] /\
+  map (encode re_a ex_obj) [JObj [(sa, JNum 2)]; JObj [(sa, JNum 8)]; JObj [(sab, JNum 8)]; JObj [(sb, JNum 8)]; JObj [(sb, JStr sa)]]
+    = [false; true; true; false; true] /\
+  map (encode re_a ex_nested) [JObj [(sa, JNum 2)]; JObj [(sa, JNum 6)]; JObj [(sb, JStr sab)]; JObj [(sab, JNull)]; JNull]
+    = [true; false; true; false; true].
+Proof. exact verdict_examples. Qed.
+Print Assumptions C13_verdict_examples.
